@@ -26,7 +26,7 @@ pub struct Case {
     pub addrs: Vec<(bool, Beh)>,
     /// connect timeout in ms
     pub connect_ms: u16,
-    /// overall deadline: 0 none, 1 already expired, 2 100 ms (shorter than the race), 3 2 s (longer than the race)
+    /// overall deadline: 0 none, 1 already expired, 2 100 ms (shorter than the race), 3 2 s (longer than the race), 4 500 ms (expires during the race)
     pub deadline: u8,
 }
 
@@ -90,6 +90,7 @@ fn simulate(case: &Case) -> Sim {
         1 => Some(0),
         2 => Some(100),
         3 => Some(2000),
+        4 => Some(500),
         _ => None,
     };
     let mut t: i64 = 0;
@@ -103,7 +104,9 @@ fn simulate(case: &Case) -> Sim {
         for (k, &i) in order.iter().enumerate() {
             let start = t;
             if let Some(d) = deadline {
-                if (start - d).abs() <= 60 && d > 0 {
+                // an attempt started by the failure of an earlier one that ran into the deadline starts *at* the deadline in
+                // this simulation and causally after it in reality: not borderline. Independent timers within 60 ms are.
+                if (start - d).abs() <= 60 && start != d && d > 0 {
                     borderline = true;
                 }
             }
@@ -203,6 +206,7 @@ fn run_once(case: &Case) -> Result<Measured, String> {
         1 => rb.timeout(Duration::from_millis(0)),
         2 => rb.timeout(Duration::from_millis(100)),
         3 => rb.timeout(Duration::from_millis(2000)),
+        4 => rb.timeout(Duration::from_millis(500)),
         _ => rb,
     };
     for l in &live {
@@ -226,15 +230,15 @@ impl Property for C17 {
     type Case = Case;
     const ID: &'static str = "C17";
     const RULE: &'static str = "generated address lists (0..3 IPv6 [::1]:p and 0..3 IPv4 127.0.0.x:p in generated resolver order) with a behaviour per address {accept, refuse (bound, not listening), black hole (backlog-0 listener with its \
-queue full), late accept (black hole that starts accepting after 300 ms)}, connect timeout {600, 900, 1800} ms and overall deadline {none, expired, 100 ms, 2 s}; real sockets; oracle = event simulation of the described race (IPv6 first, alternating, 200 ms stagger): success iff an accepting address is reached, the \
-winner accepts (and is the only acceptor when there is one), error when none accepts, firm lower bound 200 ms per black hole before the first acceptor, upper bound simulated time + 600 ms re-measured up to 3 times. thorough enumerates all lists with <= 2 \
+queue full), late accept (black hole that starts accepting after 300 ms)}, connect timeout {600, 900, 1800} ms and overall deadline {none, expired, 100 ms, 500 ms, 2 s}; real sockets; oracle = event simulation of the described race (IPv6 first, alternating, 200 ms stagger): success iff an accepting address is reached, the \
+winner accepts (and is the only acceptor when there is one), error when none accepts, firm lower bound 200 ms per black hole before the first acceptor, upper bound simulated time + 300 ms re-measured up to 3 times. thorough enumerates all lists with <= 2 \
 addresses per family. non-trivial = >= 2 addresses with >= 2 different behaviours; distinct by case";
 
     fn assumptions() -> Vec<String> {
         vec![
             "attempt order is observed only through which address wins and through elapsed time".into(),
             "cases in which an attempt would start within 60 ms of the deadline are accepted with either outcome (counted as borderline)".into(),
-            "upper time bounds are wall-clock with a 600 ms margin and up to 3 re-measurements; the lower bound is firm".into(),
+            "upper time bounds are wall-clock with a 300 ms margin and up to 3 re-measurements; the lower bound is firm".into(),
         ]
     }
 
@@ -298,7 +302,7 @@ addresses per family. non-trivial = >= 2 addresses with >= 2 different behaviour
         let base = all.clone();
         for (k, c) in base.iter().enumerate() {
             if k % 7 == 0 {
-                for d in 1..=3u8 {
+                for d in 1..=4u8 {
                     all.push(Case { deadline: d, ..c.clone() });
                 }
             }
@@ -320,7 +324,7 @@ addresses per family. non-trivial = >= 2 addresses with >= 2 different behaviour
         (
             proptest::collection::vec((any::<bool>(), beh), 2..7),
             prop_oneof![2 => Just(600u16), 2 => Just(900u16), 3 => Just(1800u16)],
-            prop_oneof![5 => Just(0u8), 1 => Just(1u8), 1 => Just(2u8), 2 => Just(3u8)],
+            prop_oneof![5 => Just(0u8), 1 => Just(1u8), 1 => Just(2u8), 2 => Just(3u8), 2 => Just(4u8)],
         )
             .prop_map(|(mut addrs, connect_ms, deadline)| {
                 // at most 3 per family
@@ -358,9 +362,9 @@ addresses per family. non-trivial = >= 2 addresses with >= 2 different behaviour
                 }
             };
             // R5 upper bounds (re-measured)
-            let upper = sim.done_ms + 600;
+            let upper = sim.done_ms + 300;
             let mut too_slow = m.elapsed_ms > upper;
-            let mut why = format!("took {} ms, simulated {} ms (+600 ms margin)", m.elapsed_ms, sim.done_ms);
+            let mut why = format!("took {} ms, simulated {} ms (+300 ms margin)", m.elapsed_ms, sim.done_ms);
             if case.addrs.len() >= 2 && !case.addrs.iter().any(|a| a.1 == Beh::LateAccept) && sim.any_accept && sim.bh_before_accept >= 1 && (sim.bh_before_accept as i64) * RACE_MS + 250 < c && case.deadline == 0 && m.elapsed_ms >= c {
                 too_slow = true;
                 why = format!("took {} ms although an accepting address follows {} black hole(s): an unresponsive address must cost about one race interval, not the connect timeout of {} ms", m.elapsed_ms, sim.bh_before_accept, c);
@@ -388,7 +392,7 @@ addresses per family. non-trivial = >= 2 addresses with >= 2 different behaviour
         let expect_ok = sim.winner.is_some();
         // a 100 ms deadline can also expire during the exchange that follows a successful connect; an expired deadline on the
         // single-address fast path races the watchdog: both accepted either way
-        let deadline_raced = (case.deadline == 2 && expect_ok && m.result.as_ref().err().map(|e| e.contains("TimedOut")).unwrap_or(false)) || (case.deadline == 1 && case.addrs.len() < 2);
+        let deadline_raced = ((case.deadline == 2 || case.deadline == 4) && expect_ok && m.result.as_ref().err().map(|e| e.contains("TimedOut")).unwrap_or(false)) || (case.deadline == 1 && case.addrs.len() < 2);
         ctx.label_if(deadline_raced, "deadline-raced-accepted");
         if !sim.borderline && !deadline_raced {
             match (&m.result, expect_ok) {
